@@ -185,4 +185,117 @@ theorem C18_setopt_plain (o : Opt) (cv : Conv) (fail : Option Nat) :
         | (right; rfl)
         | simp_all)
 
+/-! ## list set / append -/
+
+theorem addvalF_ok (o : Opt) (c : Val) (fail : Option Nat) (h : (addvalF o c fail).ok = true) :
+    addvalF o c fail = addvalF o c none := by
+  unfold addvalF at h ⊢
+  by_cases h0 : (fail == some 0) = true
+  · simp [h0] at h
+  · by_cases h1 : (fail == some 1) = true
+    · simp [h0, h1] at h
+    · simp [h0, h1]
+
+theorem setnNumF_ok (o : Opt) (v : Val) (i : Nat) (fail : Option Nat) (h : (setnNumF o v i fail).ok = true) :
+    (setnNumF o v i fail).opt = (setnNumF o v i none).opt := by
+  unfold setnNumF at h ⊢
+  by_cases hi : (i != 0 && !o.flags.list && !o.flags.multi) = true
+  · simp [hi] at h
+  · simp only [hi, Bool.false_eq_true, if_false] at h ⊢
+    by_cases hn : i ≥ (dropDefaults o).1.vals.length
+    · simp only [hn, if_true] at h ⊢
+      have hok : (addvalF (dropDefaults o).1 v fail).ok = true := by
+        by_cases hh : (addvalF (dropDefaults o).1 v fail).ok = true
+        · exact hh
+        · simp [hh] at h
+      rw [addvalF_ok _ _ _ hok]
+    · simp [hn]
+
+theorem setnStrF_ok (o : Opt) (s : Option Bytes) (i : Nat) (fail : Option Nat) (h : (setnStrF o s i fail).ok = true) :
+    (setnStrF o s i fail).opt = (setnStrF o s i none).opt := by
+  unfold setnStrF at h ⊢
+  by_cases hi : (i != 0 && !o.flags.list && !o.flags.multi) = true
+  · simp [hi] at h
+  · simp only [hi, Bool.false_eq_true, if_false] at h ⊢
+    by_cases hn : i ≥ (dropDefaults o).1.vals.length
+    · simp only [hn, decide_true, if_true] at h ⊢
+      by_cases hok : (addvalF (dropDefaults o).1 (.str none) fail).ok = true
+      · rw [addvalF_ok _ _ _ hok] at h ⊢
+        have hnone : (addvalF (dropDefaults o).1 (.str none) none).ok = true := by simp [addvalF]
+        simp only [hnone, Bool.not_true, Bool.false_eq_true, if_false] at h ⊢
+        cases s with
+        | none => rfl
+        | some b =>
+          simp only [] at h ⊢
+          by_cases hs : (shiftFail fail (addvalF (dropDefaults o).1 (Val.str none) none).allocs == some 0) = true
+          · simp [hs] at h
+          · have hn0 : ∀ n, (shiftFail none n == some 0) = false := by intro n; simp [shiftFail]
+            simp only [hs, hn0, Bool.false_eq_true, if_false]
+      · simp [hok] at h
+    · simp only [hn, decide_false, Bool.false_eq_true, if_false, Bool.not_true] at h ⊢
+      cases s with
+      | none => rfl
+      | some b =>
+        simp only [] at h ⊢
+        by_cases hs : (shiftFail fail 0 == some 0) = true
+        · simp [hs] at h
+        · have hn0 : ∀ n, (shiftFail none n == some 0) = false := by intro n; simp [shiftFail]
+          simp only [hs, hn0, Bool.false_eq_true, if_false]
+
+theorem addOneF_ok (o : Opt) (v : Val) (fail : Option Nat) (h : (addOneF o v fail).ok = true) :
+    (addOneF o v fail).opt = (addOneF o v none).opt := by
+  cases v <;> first | exact setnNumF_ok _ _ _ _ h | exact setnStrF_ok _ _ _ _ h
+
+theorem setnNumF_none_ok (o : Opt) (v : Val) (i : Nat) (h : (i != 0 && !o.flags.list && !o.flags.multi) = false) :
+    (setnNumF o v i none).ok = true := by
+  unfold setnNumF
+  simp only [h, Bool.false_eq_true, if_false]
+  by_cases hn : i ≥ (dropDefaults o).1.vals.length <;> simp [hn, addvalF]
+
+theorem setnStrF_none_ok (o : Opt) (s : Option Bytes) (i : Nat) (h : (i != 0 && !o.flags.list && !o.flags.multi) = false) :
+    (setnStrF o s i none).ok = true := by
+  have hsn : ∀ n, (shiftFail none n == some 0) = false := by intro n; simp [shiftFail]
+  unfold setnStrF
+  simp only [h, Bool.false_eq_true, if_false]
+  by_cases hn : i ≥ (dropDefaults o).1.vals.length <;> cases s <;> simp [hn, addvalF, hsn]
+
+theorem setnNumF_ok_idx (o : Opt) (v : Val) (i : Nat) (fail : Option Nat) (h : (setnNumF o v i fail).ok = true) :
+    (i != 0 && !o.flags.list && !o.flags.multi) = false := by
+  unfold setnNumF at h
+  by_cases hi : (i != 0 && !o.flags.list && !o.flags.multi) = true
+  · simp [hi] at h
+  · simpa using hi
+
+theorem setnStrF_ok_idx (o : Opt) (s : Option Bytes) (i : Nat) (fail : Option Nat) (h : (setnStrF o s i fail).ok = true) :
+    (i != 0 && !o.flags.list && !o.flags.multi) = false := by
+  unfold setnStrF at h
+  by_cases hi : (i != 0 && !o.flags.list && !o.flags.multi) = true
+  · simp [hi] at h
+  · simpa using hi
+
+/-- a store that succeeds under some fault schedule succeeds without faults -/
+theorem addOneF_ok_none (o : Opt) (v : Val) (fail : Option Nat) (h : (addOneF o v fail).ok = true) : (addOneF o v none).ok = true := by
+  cases v <;> first
+    | exact setnNumF_none_ok _ _ _ (setnNumF_ok_idx _ _ _ _ h)
+    | exact setnStrF_none_ok _ _ _ (setnStrF_ok_idx _ _ _ _ h)
+
+/-- **C18 (`cfg_setlist` / `cfg_addlist`: completes or reports failure).** For EVERY position of the failing request and
+any number of elements: if the call reports success, the option is exactly what the fault-free call produces. -/
+theorem C18_addlist_completes (vs : List Val) : ∀ (o : Opt) (fail : Option Nat),
+    (addlistF o vs fail).ok = true → (addlistF o vs fail).opt = (addlistF o vs none).opt := by
+  induction vs with
+  | nil => intro o fail _; rfl
+  | cons v vs ih =>
+    intro o fail h
+    simp only [addlistF] at h ⊢
+    by_cases hok : (addOneF o v fail).ok = true
+    · have hnone : (addOneF o v none).ok = true := addOneF_ok_none o v fail hok
+      simp only [hok, hnone, Bool.not_true, Bool.false_eq_true, if_false] at h ⊢
+      rw [addOneF_ok o v fail hok] at h ⊢
+      have := ih (addOneF o v none).opt (shiftFail fail (addOneF o v fail).allocs) h
+      rw [this]
+      have hsn : ∀ n, shiftFail none n = none := fun _ => rfl
+      rw [hsn]
+    · simp [hok] at h
+
 end Confuse
